@@ -89,6 +89,16 @@ theorem C16_stack_modelwise {α : Type} [CommRing α] (T : Transform α) (X Y : 
       rw [hyk]
       simp [List.map_map, applyPoint, Function.comp_def]
 
+/-- The degenerate transformations need no special treatment: with a zero centre translation and the
+identity rotation `apply` is the pure translation `x ↦ x + t` (and the identity for `t = 0`) — as a
+*function* of its input, which the model (and the property) never modifies. -/
+theorem C16_apply_pure_translation {α : Type} [CommRing α] (t x : V3 α) :
+    applyPoint V3.zero M3.one t x = x.add t ∧ applyPoint V3.zero M3.one V3.zero x = x := by
+  obtain ⟨a, b, c⟩ := x
+  obtain ⟨u, v, w⟩ := t
+  simp only [applyPoint, M3.mulVec, M3.one, V3.zero, V3.dot, V3.add, V3.mk.injEq]
+  refine ⟨⟨?_, ?_, ?_⟩, ⟨?_, ?_, ?_⟩⟩ <;> ring
+
 /-- A structure whose number of models differs from the number of transformations is rejected with
 `IndexError`, and this is the only way `apply` raises `IndexError`. -/
 theorem C16_apply_model_count {α : Type} [CommRing α] (T : Transform α) (X : Stack α) :
